@@ -2,11 +2,13 @@
    (1) the verdict characterised independently of the driver: True iff every script runs from its own first
    instruction to a normal end and the stack then is exactly [ff]; False in every other case; a raise never
    escapes. (2) what a later script inherits from earlier ones: stack, cache minus the control flag,
-   definitions, call count — and nothing else. (3) the RETURN-flag discipline (proofs/Discipline.v) is added
-   to this file when it is complete; see DESIGN.md. *)
+   definitions, call count — and nothing else. (3) the RETURN-flag discipline: in a run started with the control
+   flag clear, EVERY instruction fetch at EVERY nesting level sees the flag clear and every raise happens with the
+   flag clear; hence an IF/IF_ELSE/TRY body can end its script only through a RETURN executed inside that very
+   body — nothing an earlier script or an earlier instruction did can make a later instruction be skipped. *)
 From Coq Require Import ZArith List Bool.
 From Coq.Strings Require Import Byte.
-From TS Require Import Bytes State Prog Ops Interp StateLemmas AuthSpec StrKeys Limits.
+From TS Require Import Bytes State Prog Ops Interp StateLemmas AuthSpec StrKeys Limits Discipline.
 Import ListNotations.
 Local Open Scope nat_scope.
 
@@ -57,7 +59,65 @@ Example C01_return_does_not_leak :
   end.
 Proof. intro orc. vm_compute. reflexivity. Qed.
 
+(* ---- the RETURN-flag discipline ---- *)
+
+(* every instruction (92 opcodes, NOP, unassigned codes) is typed by the discipline judgement *)
+Theorem C01_every_instruction_disciplined :
+  forall code, disc (dispatch code) M0 (fun _ m => final m).
+Proof. exact dispatch_disc. Qed.
+
+(* one activation of run_tape started with the flag clear: a raise leaves it clear; a normal end leaves it
+   clear or the pointer at the end of the tape — for all programs, oracles, configurations, fuel, nestings *)
+Theorem C01_run_tape_discipline :
+  forall orc cfg fuel tid ptr st,
+  flag_clear st ->
+  match run_tape orc cfg fuel tid ptr st with
+  | Done _ fr' st' => flag_clear st' \/ at_end fr' st'
+  | Raised _ _ st' => flag_clear st'
+  | _ => True
+  end.
+Proof. exact run_tape_discipline. Qed.
+
+(* ... and the NEXT fetch again sees a clear flag: no stale RETURN can reach a later instruction *)
+Theorem C01_every_fetch_sees_clear_flag :
+  forall orc cfg f tid ptr st,
+  flag_clear st -> ptr < List.length (to_data (nth_tape st tid)) ->
+  match interp orc cfg (fun t s => run_tape orc cfg f t 0 s) (dispatch (code_at st tid ptr))
+               {| fr_tid := tid; fr_ptr := S ptr |} st with
+  | Done _ fr' st' =>
+      fr_tid fr' = tid /\
+      (fr_ptr fr' < List.length (to_data (nth_tape st' tid)) -> flag_clear st')
+  | Raised _ _ st' => flag_clear st'
+  | _ => True
+  end.
+Proof. exact fetch_flag_clear. Qed.
+
+(* every later script of run_auth_scripts starts with the flag clear, whatever the earlier scripts did *)
+Theorem C01_later_scripts_start_clear :
+  forall st prev s, flag_clear (next_script_state st prev s).
+Proof. exact auth_scripts_start_clear. Qed.
+
+Theorem C01_auth_discipline :
+  forall orc cfg fuel scripts vals,
+  cache_get (init_cache cfg vals) returned_key = None ->
+  match scripts with
+  | [] => True
+  | s :: rest =>
+    flag_clear (init_state cfg s vals) /\
+    match run_script orc cfg fuel s vals with
+    | Done _ fr' st' => (flag_clear st' \/ at_end fr' st') /\ auth_rest_disc orc cfg fuel rest 0 st'
+    | Raised _ _ st' => flag_clear st'
+    | _ => True
+    end
+  end.
+Proof. exact run_auth_scripts_discipline. Qed.
+
 Print Assumptions C01_verdict_true_iff.
+Print Assumptions C01_every_instruction_disciplined.
+Print Assumptions C01_run_tape_discipline.
+Print Assumptions C01_every_fetch_sees_clear_flag.
+Print Assumptions C01_later_scripts_start_clear.
+Print Assumptions C01_auth_discipline.
 Print Assumptions C01_verdict_false_cases.
 Print Assumptions C01_later_script_start.
 Print Assumptions C01_never_raises.
